@@ -1205,6 +1205,13 @@ def extract_limits(src: Path) -> str:
         else:
             emit(f"def h2CmpAfterCreate : Bool := {'true' if shape else 'false'}   -- the request that exceeds the maximum is itself served")
             emit("def h2LimitAction : String := \"close_connection\"")
+        # the h2c upgrade request is given to `_create_stream` by `initiate`; is the request maximum compared there as well?
+        ini = find_def(tree, "H2Protocol", "initiate")
+        if ini is None:
+            fail("h2InitiateCompares", "H2Protocol.initiate not found")
+        else:
+            cmp_in_init = any(isinstance(n, ast.Compare) and "keep_alive_max_requests" in ast.unparse(n) for n in ast.walk(ini))
+            emit(f"def h2InitiateCompares : Bool := {'true' if cmp_in_init else 'false'}   -- `initiate` (the h2c upgrade request, stream 1) compares the counter with the request maximum")
     except Exception as e:
         fail("limits h2.py", f"{type(e).__name__}: {e}")
 
